@@ -12,11 +12,12 @@ python3 - <<'PY'
 import sys
 sys.path.insert(0, "driver")
 import lib
+lib.build_harness()
+lib.regen_schema()
 rc, out = lib.coq_make()
 open("build/coq-build.log", "w").write(out)
 if rc != 0:
     print(out[-4000:]); sys.exit(1)
 lib.build_model()
-lib.build_harness()
 print("setup ok")
 PY
